@@ -160,6 +160,36 @@ func allTriples() (map[string][]Triple, []string) {
 	return out, skipped
 }
 
+// methodsOutsideTriples lists the methods of a service that belong to no triple, so that the notes show
+// nothing register-like is overlooked; a Get<R>+Pull<R>[s] pair that has an Update<R> can never be in
+// this list (triplesOf either returns it or reports it as skipped).
+func methodsOutsideTriples(svc string, ts []Triple) string {
+	var sd protoreflect.ServiceDescriptor
+	protoregistry.GlobalFiles.RangeFiles(func(fd protoreflect.FileDescriptor) bool {
+		for i := 0; i < fd.Services().Len(); i++ {
+			if string(fd.Services().Get(i).Name()) == svc {
+				sd = fd.Services().Get(i)
+			}
+		}
+		return true
+	})
+	if sd == nil {
+		return ""
+	}
+	in := map[string]bool{}
+	for _, t := range ts {
+		in[string(t.Get.Name())], in[string(t.Update.Name())], in[string(t.Pull.Name())] = true, true, true
+	}
+	var rest []string
+	for j := 0; j < sd.Methods().Len(); j++ {
+		if n := string(sd.Methods().Get(j).Name()); !in[n] {
+			rest = append(rest, n)
+		}
+	}
+	sort.Strings(rest)
+	return strings.Join(rest, ", ")
+}
+
 // Server is a model server / memory device type found in pkg/trait/<Pkg>.
 type Server struct {
 	Pkg      string            // onoffpb
@@ -497,6 +527,16 @@ func discover() ([]Target, []string, error) {
 	var out []Target
 	for _, s := range servers {
 		for _, svc := range s.Services {
+			// a Get/Update/Pull group of a discovered server's service that does not have the shape the
+			// driver knows is NOT silently left out: the run stops until the driver is taught about it
+			for _, sk := range skipped {
+				if strings.HasPrefix(sk, svc+".") {
+					return nil, nil, fmt.Errorf("%s: service %s has a Get/Update/Pull group the C14 driver does not cover: %s (extend harness/c14/scan.go triplesOf)", s.Key(), svc, sk)
+				}
+			}
+			if rest := methodsOutsideTriples(svc, triples[svc]); rest != "" {
+				notes = append(notes, fmt.Sprintf("%s: methods of %s outside Get/Update/Pull triples (not C14's): %s", s.Key(), svc, rest))
+			}
 			for _, t := range triples[svc] {
 				if s.Wrap[svc] == "" || s.Router[svc] == "" {
 					return nil, nil, fmt.Errorf("%s: no Wrap/New...Router for service %s", s.Key(), svc)
